@@ -715,3 +715,95 @@ Proof.
   - intros q Hq. rewrite Hcu in Hq. discriminate Hq.
   - intros c0 Hq Wc. rewrite Hcu in Hq. inversion Hq; subst c0. destruct Wc.
 Qed.
+
+(** ** a worker instruction that leaves exactly one return-producing instruction [a] behind; the pipes do not move *)
+Lemma pr_kinds : forall a, pr a = true ->
+  (forall q, spend q [a] = []) /\ (forall m0 q x, a <> ILock m0 (LPqSend q x)) /\ (forall m0 q, a <> ILock m0 (LPqCancelSet q)).
+Proof.
+  intros a H. destruct a; cbn in H; try discriminate H; try (repeat split; try reflexivity; intros; discriminate).
+  all: destruct a; cbn in H; try discriminate H; repeat split; try reflexivity; intros; discriminate.
+Qed.
+
+Lemma fq_list : forall k, (forall j, In j k -> fq j) ->
+  prcount k = O /\ (forall q, spend q k = []) /\ rvals k = [].
+Proof.
+  induction k as [|j k IH]; intro H; [repeat split; reflexivity|].
+  destruct IH as [A [B C]]; [intros; apply H; right; assumption|]. destruct (fq_facts j (H j (or_introl eq_refl))) as [F1 [F2 [F3 _]]].
+  split; [rewrite prcount_cons, F1, A; reflexivity|]. split; [intro q; rewrite (spend_cons q j k), F2, B; reflexivity|rewrite (rvals_cons j k), F3, C; reflexivity].
+Qed.
+
+Lemma rvals_one : forall a, (forall m0 z, a <> IUnlock m0 (URet (RVal z))) -> rvals [a] = [].
+Proof. intros a H. destruct a; try reflexivity. destruct a; try reflexivity. destruct v; try reflexivity. exfalso. eapply H. reflexivity. Qed.
+
+Lemma f_wret : forall p st st' m m' t i r n1 a n2 c,
+  FRel p st m -> f14_same m m' -> tframe st st' t -> tcont (thr st t) = i :: r -> tcont (thr st' t) = (n1 ++ a :: n2) ++ r ->
+  (forall j, In j n1 -> fq j) -> (forall j, In j n2 -> fq j) -> pr i = true -> (forall m0 v, i <> IUnlock m0 (URet v)) -> pr a = true ->
+  wkr st t -> t <> main -> tcur (thr st t) = Some c -> wcmd c ->
+  (forall m0 v, a = IUnlock m0 (URet v) -> (forall z, v <> RVal z) /\ (is_late m t -> okret c v)) ->
+  ((forall m0 q, a = ILock m0 (LPqRecv q) \/ a = ICvReacq q -> c = CRecv /\ q = tpipe (thr st t)) /\
+   (forall m0 q, a = ILock m0 (LPqCancelGet q) -> c = CCancel /\ q = tpipe (thr st t)) /\
+   (forall m0 q x, a = ILock m0 (LPqLSend q x) -> c = CLSend x /\ q = tpipe (thr st t))) ->
+  fpsame st st' -> (forall u, tret (thr st' u) = tret (thr st u)) ->
+  FRel p st' m'.
+Proof.
+  intros p st st' m m' t i r n1 a n2 c R Sm F Hc Hc' Hn1 Hn2 Hi Hinr Ha W Nm Hcu Wc Haret Haown Pp Tr.
+  pose proof F as [Hn [Hf Ho]].
+  assert (Cu : forall u, tcur (thr st' u) = tcur (thr st u)) by (intro u; apply Hf).
+  assert (Tp : forall u, tpipe (thr st' u) = tpipe (thr st u)) by (intro u; apply Hf).
+  assert (Wk : forall u, wkr st' u <-> wkr st u) by (intro u; unfold wkr; rewrite Hn, Tp; tauto).
+  destruct (fq_list n1 Hn1) as [C1 [S1 V1]]. destruct (fq_list n2 Hn2) as [C2 [S2 V2]].
+  destruct (pr_kinds i Hi) as [Si [Ii1 Ii2]]. destruct (pr_kinds a Ha) as [Sa [Ia1 Ia2]].
+  assert (Mc : mcont st' = mcont st) by (unfold mcont; rewrite (Ho main (fun E => Nm (eq_sym E))); reflexivity).
+  assert (Cnt : prcount r = O /\ tret (thr st t) = RUnit).
+  { destruct (f_pr _ _ _ R t c Hcu Wc) as [A B]. rewrite Hc, prcount_cons, Hi in A, B. split; [lia|apply B; lia]. }
+  destruct Cnt as [Cr Tu]. destruct (prcount0_rvals r Cr) as [Vr Nr].
+  assert (Va : rvals [a] = []).
+  { apply rvals_one. intros m0 z E. destruct (Haret m0 (RVal z) E) as [Z0 _]. eapply Z0. reflexivity. }
+  assert (Vi : rvals [i] = []) by (apply rvals_one; intros m0 z E; exact (Hinr m0 _ E)).
+  assert (Inn : forall j, In j (tcont (thr st' t)) -> (fq j /\ (In j n1 \/ In j n2)) \/ j = a \/ In j r).
+  { intros j Hj. rewrite Hc' in Hj. apply in_app_or in Hj. destruct Hj as [Hj|Hj]; [|right; right; exact Hj].
+    apply in_app_or in Hj. destruct Hj as [Hj|[Hj|Hj]]; [left; split; [apply Hn1; exact Hj|left; exact Hj]|right; left; symmetry; exact Hj|left; split; [apply Hn2; exact Hj|right; exact Hj]]. }
+  assert (Inr : forall j, In j r -> In j (tcont (thr st t))) by (intros j Hj; rewrite Hc; right; exact Hj).
+  apply (f_step p st st' m m' t i r (tpipe (thr st t)) R Sm F Hc).
+  - intro q. destruct (Pp q) as [A [B [C D]]]. split; [exact C|]. split; [exact D|]. intros _. split; [exact A|exact B].
+  - left. destruct (Pp (tpipe (thr st t))) as [A [B _]]. split; [exact A|]. split; [exact B|rewrite Mc; reflexivity].
+  - destruct (Pp (tpipe (thr st t))) as [_ [B _]]. rewrite B. auto.
+  - intros u _. apply Tr.
+  - intros _. reflexivity.
+  - intros q _. rewrite Mc. reflexivity.
+  - intros u Wu E. destruct (Pp (tpipe (thr st t))) as [A _]. rewrite A, Mc.
+    assert (Rt : rtransit (thr st' u) = rtransit (thr st u)).
+    { unfold rtransit. rewrite Cu, Tr. destruct (Nat.eq_dec u t) as [->|Hu]; [|rewrite (Ho u Hu); reflexivity].
+      rewrite Hc, Hc', !rvals_app, (rvals_cons a n2), (rvals_cons i r), V1, V2, Va, Vi. reflexivity. }
+    rewrite Rt. pose proof (f_ps _ _ _ R u Wu) as L. cbn zeta in L. rewrite E in L.
+    destruct Sm as [M1 M2 M3 M4]. unfold dps. rewrite M1, M2. exact L.
+  - intros c0 _ L Hc0. rewrite Cu, Hcu in Hc0. inversion Hc0; subst c0. rewrite Tr, Tu.
+    assert (L0 : is_late m t) by (destruct Sm as [_ _ _ M4]; unfold is_late in *; rewrite M4 in L; exact L).
+    split; [destruct c; exact Logic.I|]. intros m0 v Hin. destruct (Inn _ Hin) as [[Fj _]|[E|Hj]].
+    + exfalso. exact (proj1 (proj2 (proj2 (proj2 (proj2 (proj2 (fq_facts _ Fj)))))) m0 v eq_refl).
+    + apply (proj2 (Haret m0 v (eq_sym E)) L0).
+    + exfalso. exact (Nr m0 v Hj).
+  - intros m0 q x Hin. exfalso. destruct (Inn _ Hin) as [[Fj _]|[E|Hj]].
+    + exact (proj1 (proj2 (proj2 (proj2 (fq_facts _ Fj)))) m0 q x eq_refl).
+    + exact (Ia1 m0 q x (eq_sym E)).
+    + destruct (f_own_send _ _ _ R t m0 q x (Inr _ Hj)) as [Z0 _]. exact (Nm Z0).
+  - intros q x Hq. rewrite Cu, Hcu in Hq. inversion Hq; subst c. destruct Wc.
+  - intros q Hq. rewrite Cu, Hcu in Hq. inversion Hq; subst c. destruct Wc.
+  - intros m0 q Hin. exfalso. destruct (Inn _ Hin) as [[Fj _]|[E|Hj]].
+    + exact (proj1 (proj2 (proj2 (proj2 (proj2 (fq_facts _ Fj))))) m0 q eq_refl).
+    + exact (Ia2 m0 q (eq_sym E)).
+    + destruct (f_own_cs _ _ _ R t m0 q (Inr _ Hj)) as [Z0 _]. exact (Nm Z0).
+  - intros m0 v Hin. rewrite Cu, Hcu. destruct (Inn _ Hin) as [[Fj _]|[E|Hj]].
+    + exfalso. exact (proj1 (proj2 (proj2 (proj2 (proj2 (proj2 (fq_facts _ Fj)))))) m0 v eq_refl).
+    + split; [intros q x E0; inversion E0; subst c; destruct Wc|]. intros z Ez. exfalso. destruct (Haret m0 v (eq_sym E)) as [Z0 _]. exact (Z0 z Ez).
+    + exfalso. exact (Nr m0 v Hj).
+  - intros j Hin. rewrite Cu, Tp, Hcu. destruct Haown as [O1 [O2 O3]]. destruct (Inn _ Hin) as [[Fj _]|[E|Hj]].
+    + destruct (fq_facts _ Fj) as [_ [_ [_ [_ [_ [_ [Z1 [Z2 [Z3 Z4]]]]]]]]]. split; [intros m0 q [E|E]; exfalso; [exact (Z1 m0 q E)|exact (Z2 q E)]|split; [intros m0 q E; exfalso; exact (Z3 m0 q E)|intros m0 q x E; exfalso; exact (Z4 m0 q x E)]].
+    + subst j. split; [intros m0 q E; destruct (O1 m0 q E) as [-> Eq]; split; [apply Wk; exact W|split; [reflexivity|exact Eq]]|split].
+      * intros m0 q E. destruct (O2 m0 q E) as [-> Eq]. split; [apply Wk; exact W|split; [reflexivity|exact Eq]].
+      * intros m0 q x E. destruct (O3 m0 q x E) as [-> Eq]. split; [apply Wk; exact W|split; [reflexivity|exact Eq]].
+    + assert (Pj : pr j = false).
+      { clear - Cr Hj. induction r as [|j0 k IH]; [destruct Hj|]. rewrite prcount_cons in Cr. destruct (pr j0) eqn:Ej; [discriminate Cr|]. destruct Hj as [<-|Hj]; [exact Ej|apply IH; assumption]. }
+      split; [intros m0 q [E|E]; subst j; discriminate Pj|split; [intros m0 q E; subst j; discriminate Pj|intros m0 q x E; subst j; discriminate Pj]].
+  - intros c0 Hc0 _. rewrite Cu, Hcu in Hc0. inversion Hc0; subst c0. rewrite Tr, Tu, Hc', !prcount_app, (prcount_cons a n2), Ha, C1, C2, Cr. split; [cbn; lia|reflexivity].
+Qed.
